@@ -1,6 +1,7 @@
 package streams
 
 import (
+	"sort"
 	"github.com/paulsonkoly/chess-3/board"
 	"github.com/paulsonkoly/chess-3/move"
 	"github.com/paulsonkoly/chess-3/movegen"
@@ -28,24 +29,32 @@ func runGen(a hx.Args) string {
 	out := &hx.Nums{}
 	ms := move.NewStore()
 	ms.Push()
-	movegen.GenNoisy(ms, b)
-	out.Int(len(ms.Frame()))
-	for _, m := range ms.Frame() {
-		out.U(uint64(m.Move))
+	// every list is reported sorted: the property is about sets of moves, not emission order
+	emitSorted := func(ms []uint64) {
+		sort.Slice(ms, func(i, j int) bool { return ms[i] < ms[j] })
+		out.Int(len(ms))
+		out.U(ms...)
 	}
+	var l []uint64
+	movegen.GenNoisy(ms, b)
+	for _, m := range ms.Frame() {
+		l = append(l, uint64(m.Move))
+	}
+	emitSorted(l)
 	ms.Pop()
 	ms.Push()
+	l = nil
 	movegen.GenNotNoisy(ms, b)
-	out.Int(len(ms.Frame()))
 	for _, m := range ms.Frame() {
-		out.U(uint64(m.Move))
+		l = append(l, uint64(m.Move))
 	}
+	emitSorted(l)
 	ms.Pop()
-	legal := posgen.Legal(b)
-	out.Int(len(legal))
-	for _, m := range legal {
-		out.U(uint64(m))
+	l = nil
+	for _, m := range posgen.Legal(b) {
+		l = append(l, uint64(m))
 	}
+	emitSorted(l)
 	return out.String()
 }
 
